@@ -656,12 +656,21 @@ def scaling_inputs(prog: Program, rep) -> None:
         "Scaling.from_grad_jac": [{f"{pb}.obj_grad({sp_})"}, {f"{pb}.cons_jac({sp_})", f"sparse_zero(shape=(0, {pb}.num_vars))"}],
         "Scaling.from_equilibrated_kkt": [{f"{pb}.lag_hess({sp_}, {sd_})"}, {f"{pb}.cons_jac({sp_})", f"sparse_zero(shape=(0, {pb}.num_vars))"}],
     }
-    n = 0
+    # per constructor, over all of its return sites (one return with a merged argument, or one return per case)
+    seen_: Dict[str, List] = {}
+    first_: Dict[str, ast.AST] = {}
     for r in returns_of(cs):
         v = r.value
         if isinstance(v, ast.Call) and (dotted(v.func) or "") in want:
-            n += 1
+            d_ = dotted(v.func)
             got = [{U(a) for a in phi_alternatives(fc.resolved(r, z))} for z in v.args]
-            rep.check(got == want[dotted(v.func)], "scaling-inputs-unmodified", cs.qualname, short(r),
-                      f"{dotted(v.func)} is fed the scaling point / the problem's callback values exactly as given (found {[sorted(x)[:2] for x in got]})", cs.loc(r))
-    rep.pin("automatic scaling constructions in create_scaling", n, 3)
+            if d_ not in seen_:
+                seen_[d_], first_[d_] = got, r
+            elif len(seen_[d_]) == len(got):
+                seen_[d_] = [a_ | b_ for a_, b_ in zip(seen_[d_], got)]
+            else:
+                seen_[d_] = got + [set(["?"])]
+    for d_, got in seen_.items():
+        rep.check(got == want[d_], "scaling-inputs-unmodified", cs.qualname, short(first_[d_]),
+                  f"{d_} is fed the scaling point / the problem's callback values exactly as given (found {[sorted(x)[:2] for x in got]})", cs.loc(first_[d_]))
+    rep.pin("automatic scaling constructions in create_scaling", len(seen_), 3)
